@@ -166,7 +166,7 @@ func vhManipulationError() {
 	vClockFixed(1709640000)
 	which := vChoose("field", 3)
 	m := Manipulations{}
-	bad := "1.2.99999999999999999999"
+	bad := []string{"1.2.99999999999999999999", "1.2.9223372036854775808", "1.2.18446744073709551615", "1.9223372036854775808.3"}[vChoose("arc", 4)]
 	switch which {
 	case 0:
 		m.OuterSigAlg = bad
